@@ -140,10 +140,23 @@ func (e *enc) evalRaw(x SExpr, env *Env) SVal {
 			if specSort(n.sorts[i]) != "Int" {
 				continue
 			}
-			if sx := findIndexedSlice(n.body, v, n.vars); sx != nil {
+			// the slice may depend on bound variables of other sorts (m[p][i] with p a key): they stay as they
+			// are, so the substituted term is well defined wherever q_i is
+			var blocking []string
+			for k, w := range n.vars {
+				if w == v || specSort(n.sorts[k]) == "Int" {
+					blocking = append(blocking, w)
+				}
+			}
+			if sx := findIndexedSlice(n.body, v, blocking); sx != nil {
 				func() {
 					defer func() { recover() }()
-					sv := e.evalSpec(sx, env)
+					envS := env2
+					envS.bound = map[string]SVal{}
+					for k, b := range env2.bound {
+						envS.bound[k] = b
+					}
+					sv := e.evalSpec(sx, &envS)
 					if sv.sort == "Slice" {
 						env2.bound[v] = SVal{t: fmt.Sprintf("(- q_%s (soff %s))", v, sv.t), sort: "Int"}
 					}
